@@ -46,6 +46,10 @@ def gen_cases(ctx):
     for i in range(ctx.scale(12000, 1800000)):
         inst = gen.gen_instance(rng, None, max_jobs=rng.choice([2, 3, 4]), max_machines=rng.choice([2, 3, 4]))
         yield {"instance": inst, "seed": rng.randrange(2**31)}
+    for i in range(ctx.scale(8, 400)):
+        # a long run that builds, compares and drops larger instances (50+ operations) again and
+        # again: every comparison is decided by the content of the two objects at hand
+        yield {"kind": "churn", "seed": rng.randrange(2**31), "instance": {"cls": "churn"}}
 
 
 def mutate_instance(inst, rng):
@@ -145,9 +149,32 @@ def build_schedule(inst, instance, history):
     return d.schedule
 
 
+def run_churn(ctx, case):
+    from job_shop_lib import JobShopInstance
+    rng = random.Random(case["seed"])
+    J, P, M = rng.randint(7, 9), rng.randint(7, 9), rng.randint(3, 6)
+    base_d = [[rng.randint(1, 9) for _ in range(P)] for _ in range(J)]
+    base_m = [[rng.randrange(M) for _ in range(P)] for _ in range(J)]
+    L = Laws(ctx, "instance")
+    Laws.base = "churn:%s" % case["seed"]
+    for k in range(60):
+        d2 = [list(r) for r in base_d]
+        same = rng.random() < 0.5
+        if not same:
+            d2[rng.randrange(J)][rng.randrange(P)] += rng.randint(1, 3)
+        X = JobShopInstance.from_matrices([list(r) for r in base_d], [list(r) for r in base_m], name="x")
+        Y = JobShopInstance.from_matrices(d2, [list(r) for r in base_m], name="y")
+        L.expect(X, Y, same, "same content" if same else "one duration differs (large instances, long run)", [k])
+        del X, Y
+    ctx.count("comparisons_in_long_runs_of_short_lived_large_instances", 60)
+    ctx.note_case(case, True, fingerprint="churn:%s" % case["seed"])
+
+
 def run_case(ctx, case):
     from job_shop_lib import Operation, ScheduledOperation, JobShopInstance, Schedule
 
+    if case.get("kind") == "churn":
+        return run_churn(ctx, case)
     rng = random.Random(case["seed"])
     inst = case["instance"]
     Laws.base = str(hash(gen.fingerprint(inst)))
@@ -189,6 +216,28 @@ def run_case(ctx, case):
             # same id, machines and duration, but another place in the job structure
             L.expect(a, b, False, "job structure (same id and payload, other job/position)", [i2])
             ctx.count("same_id_other_structure_pairs")
+    # operations of a user's own subclass (an extra attribute in its own __slots__) are compared on
+    # machines, durations and job structure like any other operation
+    class DueOperation(Operation):
+        __slots__ = ("due_date",)
+
+        def __init__(self, machines, duration, due_date=0):
+            super().__init__(machines, duration)
+            self.due_date = due_date
+    L = Laws(ctx, "operation")
+    s1 = DueOperation(list(opsA[i].machines), opsA[i].duration, 5)
+    s2 = DueOperation(list(opsA[i].machines), opsA[i].duration, 5)
+    L.expect(s1, s2, True, "user subclass, same content", [i])
+    L.expect(s1, DueOperation(list(opsA[i].machines), opsA[i].duration + 2, 5), False, "user subclass, duration", [i])
+    L.expect(s1, DueOperation(other_m, opsA[i].duration, 5), False, "user subclass, machines", [i])
+    SubI = JobShopInstance([[DueOperation(list(ms), dd, 9) for ms, dd in zip(mj, dj)]
+                            for mj, dj in zip(inst["machines"], inst["durations"])])
+    SubM = JobShopInstance([[DueOperation(list(ms), dd, 9) for ms, dd in zip(mj, dj)]
+                            for mj, dj in zip(mut["machines"], mut["durations"])])
+    Li = Laws(ctx, "instance")
+    Li.expect(SubI, A, True, "instance made of a user subclass of Operation vs plain", None)
+    Li.expect(SubI, SubM, False, what + " (instances made of a user subclass of Operation)", None)
+    ctx.count("user_subclass_of_operation_checks")
     # ---------------------------------------------------------------- instances
     L = Laws(ctx, "instance")
     L.expect(A, B, True, "independent copy (other name)", None)
@@ -303,6 +352,20 @@ def run_case(ctx, case):
     ctx.count("standard_protocol_copies_of_schedules")
     partial = build_schedule(inst, B, hist[:-1])
     L.expect(SA, partial, False, "one operation missing", None)
+    # a refused `add` (overlap with the last operation of the machine), caught by the caller, leaves
+    # the schedule equal to its twin
+    tw1, tw2 = build_schedule(inst, B, hist[:-1]), build_schedule(inst, C, hist[:-1])
+    o_last, m_last = hist[-1]
+    if tw1.schedule[m_last]:
+        try:
+            tw1.add(ScheduledOperation(opsB[o_last], 0, m_last))
+            refused = False
+        except Exception:
+            refused = True
+        if refused:
+            L.expect(tw1, tw2, True, "after a refused add", None)
+            L.expect(tw1, SA, False, "after a refused add vs the complete schedule", None)
+            ctx.count("refused_adds_before_comparison")
 
     L = Laws(ctx, "scheduled_operation")
     so = rng.choice([x for lst in SA.schedule for x in lst])
